@@ -1,4 +1,5 @@
 import Props.C06
+import Props.EffectFacts
 open Model.C06
 #print axioms join_rejects
 #print axioms join_admits
@@ -6,3 +7,7 @@ open Model.C06
 #print axioms join_other_id
 #print axioms append_denied_unchanged
 #print axioms append_verifies
+open Model.EffectFacts in
+#print axioms append_writes_and_checks_before_publishing
+open Model.EffectFacts in
+#print axioms join_validates_before_publishing
